@@ -483,9 +483,10 @@ theorem run_noerr (sc : Scripts) (hn : NoErr sc) (cs : List Cmd) (w : World) (ht
 /-- **top theorem for script oracles that never raise an uncaught error** (the complete scope of the earlier rounds:
     kicks, drops, get_char / input_to, nested command() calls): for every history with plain bytes the specification
     oracle - all five clause oracles - accepts the trace of the model -/
-theorem model_satisfies_spec_noerr (sc : Scripts) (hn : NoErr sc) (cs : List Cmd) (hp : plainCmds cs = true) :
+theorem model_satisfies_spec_noerr (sc : Scripts) (hn : NoErr sc) (cs : List Cmd) (hp : plainCmds cs = true)
+    (hno : (run sc {} cs).1.overflow = false) :
     judgeEv (events sc cs) = [] := by
-  rw [judgeEv_events_eq_order sc cs hp]
+  rw [judgeEv_events_eq_order sc cs hp hno]
   exact order_of_struct _ (judgeStruct_events sc cs) (run_noerr sc hn cs {} rfl)
 
 end NV.C12
